@@ -184,6 +184,37 @@ def run(tier, seed):
     v.cov["distinct_nontrivial"] = len({json.dumps(by_id[str(c["id"])]["files"], sort_keys=True) + json.dumps(c.get("incdirs")) for c in cases if len(c["files"]) > 1 or c.get("fs_extra")})
     v.cov["samples"] = [{"kind": by_id[str(c["id"])]["kind"], "files": by_id[str(c["id"])]["files"], "incdirs": c.get("incdirs"), "outcome": rr["obs"]["outcome"],
                          "err": rr["obs"]["err"], "tokens": [t["t"] for t in rr["obs"]["toks"]][:40]} for c, rr in list(zip(cases, records))[-3:]]
+    # ignore_include through EVERY entry point, with the named file present and absent (round-5 seeded change: parse_lib_str
+    # passed the flag in the wrong position)
+    import tree
+    IGN = [("sv", "module m; wire a;\n`include \"gone.svh\"\nendmodule\n`include <x.svh>\n"),
+           ("sv", "`include \"x.svh\"\nmodule m; `W w; endmodule\n"),
+           ("lib", "library l a.v;\n`include \"gone.svh\"\nlibrary k b.v;\n`include \"x.svh\"\n")]
+    icases = []
+    for j, (fam, text) in enumerate(IGN):
+        for present in (False, True):
+            files = {"top.sv": text}
+            if present:
+                files["x.svh"] = "`define W wire\n"
+                files["gone.svh"] = "`define G 1\n"
+            fns = ["preprocess", "preprocess_str"] + (["parse_sv", "parse_sv_str", "two_step_sv", "two_step_sv_str"] if fam == "sv" else ["parse_lib", "parse_lib_str", "two_step_lib", "two_step_lib_str"])
+            calls = []
+            for fn in fns:
+                cc = {"fn": fn, "path": "top.sv", "ignore_include": True, "defines": [{"name": "W", "body": "wire"}]}
+                if fn.endswith("_str"):
+                    cc["text"] = text
+                calls.append(cc)
+            icases.append({"id": "ign%d%d" % (j, present), "files": files, "calls": calls, "fresh_each": True})
+    ires = vlib.run_cases(icases, tag="c10i")
+    irecs = []
+    for h, res in zip(icases, ires):
+        irecs.append({"id": h["id"], "kind": "ign", "calls": [{"fn": c["fn"], "fam": "pp" if c["fn"].startswith("preprocess") else "parse", "res": tree.result_summary(rr)}
+                                                              for c, rr in zip(h["calls"], res["results"])]})
+        by_id[h["id"]] = {"files": h["files"]}
+    ibad, istats = vlib.tlc_validate("Api_Trace.tla", "Api_Trace.cfg", irecs, tag="c10i")
+    v.add_tv("Api_Trace[ign]", istats, len(irecs))
+    for rid, reasons in ibad.items():
+        v.violation("ignore_include %s: %s" % (json.dumps(by_id[rid]["files"])[:300], "; ".join(reasons)[:300]), by_id[rid])
     ppcheck.validate_with_deviations(v, "Preproc_Trace", records, by_id, "c10",
                                      lambda rid: "%s files=%s incdirs=%s" % (by_id[rid]["kind"], json.dumps(by_id[rid].get("files"))[:400], by_id[rid].get("incdirs")))
     v.assumptions = ["renderer/tokeniser of lib/pp.py", "the case's directory tree is materialised under work/fs and is the process's working directory"]
